@@ -30,6 +30,11 @@ type klSpec struct {
 	P   [][2]int `json:"p,omitempty"`
 	Sc  int      `json:"sc,omitempty"`
 	C   int      `json:"c,omitempty"`
+	// growth: a uint32 as <<hi, lo>>, plane axes, extension bytes, a second uint64 as limbs
+	U []int `json:"u,omitempty"`
+	A []int `json:"a,omitempty"`
+	E []int `json:"e,omitempty"`
+	M []int `json:"m,omitempty"`
 }
 
 func tlaPair(u uint32) string { return fmt.Sprintf("<<%d, %d>>", u>>16, u&0xffff) }
@@ -52,6 +57,20 @@ func (k klSpec) tla() string {
 		return fmt.Sprintf("[cls |-> %q, p |-> %s]", k.Cls, pt(k.P))
 	case "lmblock":
 		return fmt.Sprintf("[cls |-> %q, sc |-> %d, p |-> %s]", k.Cls, k.Sc, pt(k.P))
+	case "szsl":
+		return fmt.Sprintf("[cls |-> %q, c |-> %d, u |-> %s, l |-> %s]", k.Cls, k.C, ints(k.U), ints(k.L))
+	case "sztl":
+		return fmt.Sprintf("[cls |-> %q, c |-> %d, l |-> %s]", k.Cls, k.C, ints(k.L))
+	case "roi":
+		return fmt.Sprintf("[cls |-> %q, p |-> %s, u |-> %s]", k.Cls, pt(k.P), ints(k.U))
+	case "tile":
+		return fmt.Sprintf("[cls |-> %q, a |-> %s, sc |-> %d, p |-> %s]", k.Cls, ints(k.A), k.Sc, pt(k.P))
+	case "tarsv":
+		return fmt.Sprintf("[cls |-> %q, s |-> %s, e |-> %s]", k.Cls, ints(k.S), ints(k.E))
+	case "lmaff":
+		return fmt.Sprintf("[cls |-> %q, l |-> %s]", k.Cls, ints(k.L))
+	case "lmmut":
+		return fmt.Sprintf("[cls |-> %q, l |-> %s, m |-> %s]", k.Cls, ints(k.L), ints(k.M))
 	default:
 		return fmt.Sprintf("[cls |-> %q, c |-> %d]", k.Cls, k.C)
 	}
@@ -64,6 +83,8 @@ type klTable struct {
 	TKs  []klSpec `json:"tks"`
 	Vers []uint32 `json:"vers"`
 	Clis []uint32 `json:"clis"`
+	// datum keys looked for in a real store after the requests that write them
+	Stored []klSpec `json:"-"`
 }
 
 func (t *klTable) module() string {
@@ -81,6 +102,13 @@ func (t *klTable) module() string {
 	pairs("CliList", t.Clis)
 	sb.WriteString("TKSpecs == <<\n")
 	for i, k := range t.TKs {
+		if i > 0 {
+			sb.WriteString(",\n")
+		}
+		sb.WriteString("  " + k.tla())
+	}
+	sb.WriteString("\n>>\nStoredSpecs == <<\n")
+	for i, k := range t.Stored {
 		if i > 0 {
 			sb.WriteString(",\n")
 		}
@@ -121,6 +149,42 @@ func c06Table(c *Ctx, rng *rand.Rand) *klTable {
 		{Cls: "lmblock", Sc: 0, P: pt(1, 2, 3)}, {Cls: "lmblock", Sc: 1, P: pt(1, 2, 3)},
 		{Cls: "lmindex", L: limbs(0)}, {Cls: "lmindex", L: limbs(1 << 32)},
 		{Cls: "mintk", C: 0}, {Cls: "maxtk", C: 255},
+	}
+	// growth (gap C06-5): the key classes of labelsz, imagetile, tarsupervoxels, labelmap affinities /
+	// mutation cache, neuronjson schemas, imageblk extents
+	u32 := func(u uint32) []int { return []int{int(u >> 16), int(u & 0xffff)} }
+	ascii := func(s string) []int {
+		b := make([]int, len(s))
+		for i := range s {
+			b[i] = int(s[i])
+		}
+		return b
+	}
+	more := []klSpec{
+		{Cls: "szsl", C: 1, U: u32(0), L: limbs(5)}, {Cls: "szsl", C: 1, U: u32(1<<32 - 1), L: limbs(5)}, {Cls: "szsl", C: 2, U: u32(65536), L: limbs(1<<64 - 1)},
+		{Cls: "sztl", C: 1, L: limbs(5)}, {Cls: "sztl", C: 4, L: limbs(1 << 32)},
+		{Cls: "tile", A: []int{0, 1}, Sc: 0, P: pt(0, 0, 0)}, {Cls: "tile", A: []int{0, 1}, Sc: 1, P: pt(-1, 2, 3)}, {Cls: "tile", A: []int{1, 2}, Sc: 0, P: pt(0, 0, 0)},
+		{Cls: "tarsv", S: ascii("1"), E: ascii("dat")}, {Cls: "tarsv", S: ascii("12"), E: ascii("dat")}, {Cls: "tarsv", S: ascii("18446744073709551615"), E: ascii("swc")},
+		{Cls: "lmaff", L: limbs(7)}, {Cls: "lmmut", L: limbs(7), M: limbs(1)}, {Cls: "lmmut", L: limbs(7), M: limbs(1<<64 - 1)},
+		{Cls: "plain", C: 180}, {Cls: "plain", C: 181}, {Cls: "plain", C: 182}, {Cls: "plain", C: 24},
+	}
+	if !c.thorough() {
+		// quick: one of each class, seeded
+		var keep []klSpec
+		for i := 0; i < len(more); {
+			j := i
+			for j < len(more) && more[j].Cls == more[i].Cls && (more[i].Cls != "plain" || (more[j].C == 24) == (more[i].C == 24)) {
+				j++
+			}
+			keep = append(keep, more[i+rng.Intn(j-i)])
+			i = j
+		}
+		more = keep
+	}
+	defer func() { t.TKs = append(t.TKs, more...) }()
+	t.Stored = []klSpec{
+		{Cls: "roi", P: pt(3, 2, 1), U: u32(3)}, {Cls: "roi", P: pt(-4, 2, 1), U: u32(1)}, {Cls: "roi", P: pt(0, -5, 70000), U: u32(10)},
+		{Cls: "plain", C: 237}, {Cls: "plain", C: 238}, {Cls: "plain", C: 239},
 	}
 	if !c.thorough() {
 		// quick: a subset of the fixed keys (one adversarial pair per class) to stay inside the time budget
@@ -198,6 +262,7 @@ func c06Table(c *Ctx, rng *rand.Rand) *klTable {
 }
 
 type klExpect struct {
+	Stored    [][]int   `json:"stored"`
 	TKeys     [][]int   `json:"tkeys"`
 	Keys      [][][]int `json:"keys"`
 	MinV      [][]int   `json:"minv"`
@@ -387,6 +452,7 @@ func c06Layout(c *Ctx, run *ev.Run, rng *rand.Rand) (states, trans, compared int
 			report(c06KeyDivergence{Part: "store", Kind: "datum-scan", Instance: t.IDs[d/nT], TKeySpec: &t.TKs[d%nT], Expected: exp.DatumScan[d], Observed: st.DatumScan[d]})
 		}
 	}
+	compared += c06Stored(c, t, exp, report)
 	for k, v := range reported {
 		if v > 3 {
 			fmt.Printf("C06: %d divergences of kind %s (3 written out)\n", v, k)
@@ -492,6 +558,11 @@ func isoName(n int) string { return fmt.Sprintf("inst%c", 'A'+n-1) }
 // instance with the specification's state after every step.  raw: the node holds nothing
 // else, compare the whole data key space with the specification's store as well.
 func c06ReplayHistory(c *Ctx, run *ev.Run, n *node.Node, m *isoModel, h *isoState, idStart uint32, raw bool, nq *int64) {
+	c06ReplayHistoryT(c, run, n, m, h, idStart, raw, nq, isoKeyvalue)
+}
+
+// c06ReplayHistoryT: the same history on instances of the given datatype (growth, gap C06-1).
+func c06ReplayHistoryT(c *Ctx, run *ev.Run, n *node.Node, m *isoModel, h *isoState, idStart uint32, raw bool, nq *int64, typ *isoType) {
 	var script []string
 	do := func(method, url string, body []byte) node.Resp {
 		r, err := n.HTTP(method, url, body)
@@ -511,26 +582,30 @@ func c06ReplayHistory(c *Ctx, run *ev.Run, n *node.Node, m *isoModel, h *isoStat
 		if bad > 2 { // one history, one or two written-out divergences
 			return
 		}
-		d.Part, d.IDStart, d.History, d.Script = "histories", idStart, h.Hist, script
+		d.Part, d.IDStart, d.History, d.Script = "histories ("+typ.typename+")", idStart, h.Hist, script
 		run.Violation("c06", d)
 	}
 	for i, op := range h.Hist {
 		name := isoName(op.N)
 		switch op.Op {
 		case "create":
-			body, _ := json.Marshal(map[string]string{"typename": "keyvalue", "dataname": name})
+			cfg := map[string]string{"typename": typ.typename, "dataname": name}
+			for k, v := range typ.cfg {
+				cfg[k] = v
+			}
+			body, _ := json.Marshal(cfg)
 			if r := do("POST", "/api/repo/"+root+"/instance", body); r.Status != 200 {
 				report(c06HistDivergence{Kind: "create-refused", Step: i + 1, Instance: name, Expected: 200, Observed: fmt.Sprintf("%d %s", r.Status, r.Bytes())})
 				return
 			}
 		case "write":
-			if r := do("POST", "/api/node/"+root+"/"+name+"/key/"+isoKeyNames[op.K-1], []byte(fmt.Sprintf("s%d", i+1))); r.Status != 200 {
-				report(c06HistDivergence{Kind: "write-refused", Step: i + 1, Instance: name, Expected: 200, Observed: fmt.Sprintf("%d %s", r.Status, r.Bytes())})
+			if st, msg := typ.write(do, root, name, op.K, i+1); st != 200 {
+				report(c06HistDivergence{Kind: "write-refused", Step: i + 1, Instance: name, Expected: 200, Observed: fmt.Sprintf("%d %s", st, msg)})
 				return
 			}
 		case "delkey":
-			if r := do("DELETE", "/api/node/"+root+"/"+name+"/key/"+isoKeyNames[op.K-1], nil); r.Status != 200 {
-				report(c06HistDivergence{Kind: "delete-key-refused", Step: i + 1, Instance: name, Expected: 200, Observed: fmt.Sprintf("%d %s", r.Status, r.Bytes())})
+			if st, msg := typ.delkey(do, root, name, op.K); st != 200 {
+				report(c06HistDivergence{Kind: "delete-key-refused", Step: i + 1, Instance: name, Expected: 200, Observed: fmt.Sprintf("%d %s", st, msg)})
 				return
 			}
 		case "delete":
@@ -578,33 +653,29 @@ func c06ReplayHistory(c *Ctx, run *ev.Run, n *node.Node, m *isoModel, h *isoStat
 			v := want.Views[ni-1]
 			var found []string
 			for k := 1; k <= m.nKeys; k++ {
-				r, err := n.HTTP("GET", "/api/node/"+root+"/"+nm+"/key/"+isoKeyNames[k-1], nil)
-				must(err, "GET key")
+				res, obs := typ.read(n, root, nm, k)
 				atomic.AddInt64(nq, 1)
-				obs := fmt.Sprintf("%d:%s", r.Status, r.Bytes())
 				switch {
 				case !v.Live:
-					if r.Status == 200 {
+					if res > 0 {
 						report(c06HistDivergence{Kind: "absent-instance-answers", Step: i + 1, Instance: nm, Key: isoKeyNames[k-1], Expected: "no such instance", Observed: obs})
 					}
 				case v.KV[k-1] == 0:
-					if r.Status != 404 {
-						report(c06HistDivergence{Kind: "read", Step: i + 1, Instance: nm, Key: isoKeyNames[k-1], Expected: "404", Observed: obs})
+					if res != 0 {
+						report(c06HistDivergence{Kind: "read", Step: i + 1, Instance: nm, Key: isoKeyNames[k-1], Expected: "not found", Observed: obs})
 					}
 				default:
 					found = append(found, isoKeyNames[k-1])
-					if w := fmt.Sprintf("200:s%d", v.KV[k-1]); obs != w {
-						report(c06HistDivergence{Kind: "read", Step: i + 1, Instance: nm, Key: isoKeyNames[k-1], Expected: w, Observed: obs})
+					if res != v.KV[k-1] {
+						report(c06HistDivergence{Kind: "read", Step: i + 1, Instance: nm, Key: isoKeyNames[k-1], Expected: fmt.Sprintf("the value written at step %d", v.KV[k-1]), Observed: obs})
 					}
 				}
 			}
-			if v.Live {
-				r, err := n.HTTP("GET", "/api/node/"+root+"/"+nm+"/keys", nil)
-				must(err, "GET keys")
+			if v.Live && typ.list != nil {
+				got, obs := typ.list(n, root, nm)
 				atomic.AddInt64(nq, 1)
-				got, perr := parseJSONKeys(r.Bytes())
-				if r.Status != 200 || perr != nil || !strsEqual(got, found) {
-					report(c06HistDivergence{Kind: "listing", Step: i + 1, Instance: nm, Expected: found, Observed: fmt.Sprintf("%d:%s", r.Status, r.Bytes())})
+				if got == nil || !strsEqual(got, found) {
+					report(c06HistDivergence{Kind: "listing", Step: i + 1, Instance: nm, Expected: found, Observed: obs})
 				}
 			}
 		}
@@ -774,28 +845,43 @@ func checkC06(c *Ctx) int {
 		atomic.AddInt64(&compared, n)
 		layoutInfo = info
 	})
-	wg.Wait()
-	if e := failed.Load(); e != nil {
-		panic(e.(infraErr))
-	}
-	// (b) histories
+	// (b) histories, while TLC works on the layout table
 	type histCfg struct {
 		names, keys, maxLen, restarts int
 		high                          bool
 		sample                        int // 0 = all maximal histories
+		// growth: datatype of the instances (nil = keyvalue) and the server's instance_id_gen
+		typ *isoType
+		gen string
 	}
 	var cfgs []histCfg
 	if c.thorough() {
-		cfgs = []histCfg{{3, 2, 5, 0, true, 0}, {3, 2, 5, 1, true, 2500}, {2, 3, 6, 0, true, 2500}, {2, 2, 7, 0, false, 12000}, {3, 2, 6, 0, false, 6000}}
+		cfgs = []histCfg{{3, 2, 5, 0, true, 0, nil, ""}, {3, 2, 5, 1, true, 2500, nil, ""}, {2, 3, 6, 0, true, 2500, nil, ""}, {2, 2, 7, 0, false, 12000, nil, ""}, {3, 2, 6, 0, false, 6000, nil, ""},
+			{3, 2, 6, 0, false, 3000, isoNeuronjson, ""}, {3, 2, 6, 0, false, 2000, isoLabelmap, ""}, {3, 2, 6, 0, false, 2000, nil, "random"}}
 	} else {
-		cfgs = []histCfg{{3, 2, 4, 0, true, 0}, {2, 2, 5, 1, true, 250}, {2, 2, 6, 0, false, 2500}}
+		cfgs = []histCfg{{3, 2, 4, 0, true, 0, nil, ""}, {2, 2, 5, 1, true, 250, nil, ""}, {2, 2, 6, 0, false, 1800, nil, ""},
+			{2, 2, 6, 0, false, 500, isoNeuronjson, ""}, {2, 2, 6, 0, false, 300, isoLabelmap, ""}, {2, 2, 6, 0, false, 300, nil, "random"}}
 	}
+	models := map[string]*isoModel{}
+	modelRes := map[string]*tlc.Result{}
 	var histInfo []string
 	hrng := rand.New(rand.NewSource(c.Seed + 77))
 	for _, hc := range cfgs {
-		m, r := emitHistories(c, hc.names, hc.keys, hc.maxLen, hc.restarts, hc.high)
-		states += r.Distinct
-		trans += r.Generated
+		mkey := fmt.Sprint(hc.names, hc.keys, hc.maxLen, hc.restarts, hc.high)
+		if models[mkey] == nil {
+			models[mkey], modelRes[mkey] = emitHistories(c, hc.names, hc.keys, hc.maxLen, hc.restarts, hc.high)
+			atomic.AddInt64(&states, modelRes[mkey].Distinct)
+			atomic.AddInt64(&trans, modelRes[mkey].Generated)
+		}
+		m, r := models[mkey], modelRes[mkey]
+		typ := hc.typ
+		if typ == nil {
+			typ = isoKeyvalue
+		}
+		every := 60
+		if typ == isoLabelmap {
+			every = 25
+		}
 		items := m.maximal
 		if hc.sample > 0 && len(items) > hc.sample {
 			perm := hrng.Perm(len(items))
@@ -820,31 +906,32 @@ func checkC06(c *Ctx) int {
 				c06ReplayHistory(c, run, n, m, h, idStart, true, &nq)
 				c.DropNode(n)
 			} else {
-				if shared[wi] == nil || used[wi] >= 60 || !shared[wi].Alive() {
+				if shared[wi] == nil || used[wi] >= every || !shared[wi].Alive() {
 					if shared[wi] != nil {
 						c.DropNode(shared[wi])
 					}
-					shared[wi] = c.StartNode(node.Config{NoLog: true})
+					shared[wi] = c.StartNode(node.Config{NoLog: typ != isoLabelmap, IIDGen: hc.gen}) // (a labelmap needs the mutation log)
 					used[wi] = 0
 				}
 				used[wi]++
-				c06ReplayHistory(c, run, shared[wi], m, h, idStart, false, &nq)
+				c06ReplayHistoryT(c, run, shared[wi], m, h, idStart, false, &nq, typ)
 			}
-			run.Eval(fmt.Sprintf("hist|%v|%s", hc.high, isoKey(h.Hist)))
+			run.Eval(fmt.Sprintf("hist|%v|%s|%s|%s", hc.high, typ.typename, hc.gen, isoKey(h.Hist)))
 		})
 		for _, n := range shared {
 			if n != nil {
 				c.DropNode(n)
 			}
 		}
-		histInfo = append(histInfo, fmt.Sprintf("InstanceIso names=%d keys=%d len=%d restarts<=%d id_start=%d: %d states, %d maximal histories, %d replayed",
-			hc.names, hc.keys, hc.maxLen, hc.restarts, idStart, r.Distinct, len(m.maximal), len(items)))
+		histInfo = append(histInfo, fmt.Sprintf("InstanceIso names=%d keys=%d len=%d restarts<=%d id_start=%d: %d states, %d maximal histories, %d replayed on %s instances%s",
+			hc.names, hc.keys, hc.maxLen, hc.restarts, idStart, r.Distinct, len(m.maximal), len(items), typ.typename, map[bool]string{true: " (instance_id_gen = random)", false: ""}[hc.gen != ""]))
 		if len(items) > 0 {
 			h := items[len(items)/2]
 			run.Sample(map[string]interface{}{"instance_id_start": idStart, "history": h.Hist, "expected_final_views": h.Views})
 		}
 	}
 	c06Reuse(c, run, &nq)
+	c06Scripts(c, run, &nq)
 	wg.Wait()
 	if e := failed.Load(); e != nil {
 		panic(e.(infraErr))
@@ -857,7 +944,7 @@ func checkC06(c *Ctx) int {
 	run.Set("layout_comparisons", compared)
 	run.Set("history_observations", nq)
 	run.Set("tlc_model", histInfo)
-	run.Set("rule", "(a) case = (instance id, datum key, version, client, marker) over boundary ids {0,1,2,2^31,2^32-2,2^32-1; thorough: +255,256,65535,65536,+seeded} x datum keys of every datatype key class built by the datatype's own constructor (prefix-related strings, extreme labels and block coordinates, class bounds, +seeded) x boundary versions/clients; TLC (KeyLayout_mc.tla) checks injectivity, decoding, order, contiguity and instance ranges on every pair of keys and prints the expected bytes, the byte order and the content of every instance/datum scan; the harness compares the bytes from every construction path of storage.DataContext / datastore.VersionedCtx, every decoder, and the same keys written into a Badger store: RawRangeQuery order, scans between KeyRange and Min/MaxVersionKey, DeleteDataInstance and DeleteAll per instance.  (b) case = history of create/write/delete-key/delete-instance/re-create(/restart) over 2-3 keyvalue instances, every history up to the stated length enumerated by TLC (InstanceIso.tla, byte-level store, ids from instance_id_start 2^32-2 wrapping through 2^32-1 and 0); replayed through the HTTP API on a fresh server per history, after every step every instance is read (point reads, listing) and the whole data key space of the store is compared with the specification's store; the same histories with default ids on shared servers (API reads only); plus one scripted history with a restart after the id counter wrapped.  distinct_nontrivial counts data of the table plus distinct histories")
+	run.Set("rule", "(a) case = (instance id, datum key, version, client, marker) over boundary ids {0,1,2,2^31,2^32-2,2^32-1; thorough: +255,256,65535,65536,+seeded} x datum keys of every datatype key class built by the datatype's own constructor (prefix-related strings, extreme labels and block coordinates, class bounds, +seeded) x boundary versions/clients; TLC (KeyLayout_mc.tla) checks injectivity, decoding, order, contiguity and instance ranges on every pair of keys and prints the expected bytes, the byte order and the content of every instance/datum scan; the harness compares the bytes from every construction path of storage.DataContext / datastore.VersionedCtx, every decoder, and the same keys written into a Badger store: RawRangeQuery order, scans between KeyRange and Min/MaxVersionKey, DeleteDataInstance and DeleteAll per instance.  (b) case = history of create/write/delete-key/delete-instance/re-create(/restart) over 2-3 keyvalue instances, every history up to the stated length enumerated by TLC (InstanceIso.tla, byte-level store, ids from instance_id_start 2^32-2 wrapping through 2^32-1 and 0); replayed through the HTTP API on a fresh server per history, after every step every instance is read (point reads, listing) and the whole data key space of the store is compared with the specification's store; the same histories with default ids on shared servers (API reads only); plus one scripted history with a restart after the id counter wrapped.  Growth: the same enumerated histories on neuronjson instances (annotations kept in memory at the master head) and labelmap instances (label index + supervoxel mapping per datum: index cache and in-memory map) and on servers with instance_id_gen = random; four scripted histories judged by the same claims (others unchanged, new instance empty, no residue in the store): a labelmap deleted while an annotation is synced with it (and a labelsz with that), then written to and re-created under the same name; a repo with two instances deleted next to a bystander repo; a 25 600-entry instance deleted between two neighbours with consecutive ids (DeleteAll flushes every 10 000 keys); keys and tags holding the terminator byte (refused, no effect on the key they would alias).  distinct_nontrivial counts data of the table plus distinct histories")
 	run.Assume = []string{"datum keys are those the datatypes' constructors produce (strings without NUL byte: the TKey contract)", "TLC bounded enumeration of histories; ids other than the boundary/seeded ones are not enumerated",
 		"instance deletion is complete when the instance has left the repo info (waited for up to 20 s); the harness then posts a repo alias so that the repo metadata is saved before any restart (the deletion's own save runs unobserved in the background)"}
 	fmt.Printf("C06: layout table %v; %v; %d layout comparisons, %d history observations in %.1fs; violations=%d\n", layoutInfo, histInfo, compared, nq, since(t0), run.Violations())
